@@ -68,13 +68,15 @@ def obligations(tier):
         for ta in TA:
             if ta == '???' and tb[2].count('?') >= 3:
                 continue
+            if ta == DEEP and tb not in TB[:6]:
+                continue
             hist(L, (ANY, ANY, ta), tb, step_limit=50_000_000)
     # ---- buffer statistics of the pooled encoder: big result, then k small ones
     for (opB, optB, tB) in ([(FORMAT, 3, '[?]')] if q else [(FORMAT, 3, '[?]'), (APPEND, 0, '{"?":?}'), (CANON, 0, '{"?":1,"?":2}')]):
         L.append(ob("strikes/levels=1100/k=7/B=%s,o%d,%s" % (NAMES[opB], optB, tB), P, "VerifC18Strikes", [1100, 7, opB, optB, tB], step_limit=50_000_000, covers=["end", "buffer-was-discarded"]))
     # ---- hist3: two earlier calls of any kind / option set
     for (opB, optB, tB) in ([(ISVALID, 0, '{"?":1}')] if q else [(ISVALID, 0, '{"?":1}'), (FORMAT, 3, '[?]'), (CANON, 0, '{"?":1}'), (DECLOOP, 0, '{"?":')]):
-        for (t1, t2) in ([('{"?":', '[?')] if q else [('{"?":', '[?'), ('{"?":1}', '{"?":{'), ('??', '{"?":1,')]):
+        for (t1, t2) in ([('{"?":', '[?')] if q else [('{"?":', '[?'), ('{"?":1}', '{"a?":{'), ('?', '{"?":1,')]):
             L.append(ob("hist3/A1=any,%s/A2=any,%s/B=%s,o%d,%s" % (t1, t2, NAMES[opB], optB, tB), P, "VerifC18Hist3", [t1, t2, 3, opB, optB, tB, 3], covers=["B-ok", "B-fails"]))
     # ---- alias
     AL = [(APPEND, 0, '[?,"?"]'), (APPENDSTR, 3, '{"?":?}'), (CLONE, 0, '???'), (FORMAT, 3, '[?,?]'), (CANON, 0, '{"?":2,"?":1}'), (INDENT, 0, '{"?":[?]}'), (COMPACT, 0, ' [ ? ] ')]
